@@ -57,7 +57,17 @@ def cases(tier, rng):
         for kind in KINDS:
             f = scheme(kind, rng)
             out.append((progs.hist([rename_rule(r, f) for r in rules], ops), "%s-%d" % (kind, k)))
+    # witness of the known finding: join(..) turns an UNBOUND variable into text that contains its name
+    wit = [rule(cplx("f", var(0, "$X"), var(0, "$Y")), bip("unify", var(0, "$Y"), fn("join", var(0, "$X"), atom("hello"))))]
+    wops = [progs.build(0, [atom("f"), var(0, "$A"), var(0, "$R")]), progs.ask(0), progs.ask(0)]
+    out.append((progs.hist(wit, wops), "original-joinwit"))
+    out.append((progs.hist([rename_rule(r, lambda ns: {n: {"$X": "$Z", "$Y": "$W"}[n] for n in ns}) for r in wit], wops), "fresh-joinwit"))
     return out
+
+_JOIN_VAR = re.compile(r"\(fn %s [^()]*(\([^()]*\)[^()]*)*\(v " % re.escape(S("join")))
+def known_class(case, tag):
+    """programs in which join(..) has a variable among its arguments (it may be unbound when join runs)"""
+    return "join-of-unbound-variable" if _JOIN_VAR.search(case) else None
 
 RULE = ("random programs (cut, not, print, disjunctions, built-ins, recursive library predicates) solved as written and under "
         "four renamings of the variables of every clause: every clause uses $X,$Y,$Z.. in order of first occurrence; every "
@@ -65,7 +75,7 @@ RULE = ("random programs (cut, not, print, disjunctions, built-ins, recursive li
         "implementation's own observations: same answers in the same order (resolved query compared up to renaming of unbound "
         "variables), same solve/solve_all texts and same output (variable names and ids in printed unbound variables masked). "
         "Each run is also compared with the model. Non-trivial = the query has an answer and the program's clauses share or "
-        "swap names under the renaming.")
+        "swap names under the renaming. One fixed witness of the known finding (join of an unbound variable).")
 
 def nontrivial(case, tag, result):
     return not tag.startswith("original") and ("(ans (ss" in result or "(strs s" in result)
